@@ -30,12 +30,18 @@ impl<T: Sized> JoinHandle<T> {
     pub fn join(self) -> Option<T> {
         // The OS will change to futex value to 0 and then wake it when the thread finishes.
         unsafe {
+            #[cfg(feature = "verif-hooks")]
+            crate::verif::gate(crate::verif::JOIN_BEFORE_WAIT, self.tsm.0 as usize);
             futex_wait_fast(self.tsm.get_futex(), UNFINISHED);
             // The thread has completed, we have exclusive access to the memory.
             // Pack it into a box, then consume the box to get the value off the heap.
+            #[cfg(feature = "verif-hooks")]
+            crate::verif::gate(crate::verif::JOIN_BEFORE_READ_RESULT, self.tsm.0 as usize);
             let val = self.tsm.get_value::<T>().into_inner();
             // We have exclusive access so we don't need to run the destructor anymore
             // just dealloc and forget.
+            #[cfg(feature = "verif-hooks")]
+            crate::verif::gate(crate::verif::JOIN_BEFORE_FREE_BLOCK, self.tsm.0 as usize);
             self.tsm.dealloc();
             core::mem::forget(self);
             val
@@ -46,6 +52,8 @@ impl<T: Sized> JoinHandle<T> {
 impl<T: Sized> Drop for JoinHandle<T> {
     fn drop(&mut self) {
         unsafe {
+            #[cfg(feature = "verif-hooks")]
+            crate::verif::gate(crate::verif::DROP_BEFORE_CAS, self.tsm.0 as usize);
             // We signal to the thread that it needs to dealloc this shared variable.
             // If it's already done, we're responsible for the cleanup.
             if self
@@ -56,7 +64,11 @@ impl<T: Sized> Drop for JoinHandle<T> {
             {
                 // The thread got its work done first, we need to wait for it to exit, signalled
                 // by the OS through the futex, then we know we have exclusive access to the memory.
+                #[cfg(feature = "verif-hooks")]
+                crate::verif::gate(crate::verif::DROP_BEFORE_WAIT, self.tsm.0 as usize);
                 futex_wait_fast(self.tsm.get_futex(), UNFINISHED);
+                #[cfg(feature = "verif-hooks")]
+                crate::verif::gate(crate::verif::DROP_BEFORE_FREE_BLOCK, self.tsm.0 as usize);
                 self.tsm.dealloc();
             }
         }
@@ -277,12 +289,20 @@ where
     let size = guard_sz + stack_sz;
 
     let tsm = unsafe { Tsm::init::<T>() };
+    #[cfg(feature = "verif-hooks")]
+    crate::verif::gate(crate::verif::SPAWN_BLOCK_ALLOCATED, tsm.0 as usize);
     let df = move || {
         unsafe {
             // Run the function, if it panics, goto #[panic_handler].
+            #[cfg(feature = "verif-hooks")]
+            crate::verif::gate(crate::verif::THREAD_BEFORE_BODY, tsm.0 as usize);
             let func_ret = func();
             // The caller won't try to access the value until this thread exits.
+            #[cfg(feature = "verif-hooks")]
+            crate::verif::gate(crate::verif::THREAD_BEFORE_STORE_RESULT, tsm.0 as usize);
             (*tsm.value_mut()) = Some(func_ret);
+            #[cfg(feature = "verif-hooks")]
+            crate::verif::gate(crate::verif::THREAD_BEFORE_CAS, tsm.0 as usize);
             // Signal that this thread is done with the value and it can be safely
             // consumed.
             // If it fails, it means the caller has dropped the JoinHandle, then we need to dealloc here.
@@ -294,9 +314,15 @@ where
                 // We need to set this thread's TID_ADDRESS ptr to null, or else
                 // the kernel will try to update the value, and futex_wake on it, which will
                 // cause a segfault.
+                #[cfg(feature = "verif-hooks")]
+                crate::verif::gate(crate::verif::THREAD_BEFORE_RESET_TID, tsm.0 as usize);
                 sc::syscall!(SET_TID_ADDRESS, 0);
+                #[cfg(feature = "verif-hooks")]
+                crate::verif::gate(crate::verif::THREAD_BEFORE_FREE_BLOCK, tsm.0 as usize);
                 tsm.dealloc();
             }
+            #[cfg(feature = "verif-hooks")]
+            crate::verif::gate(crate::verif::THREAD_BEFORE_FREE_TLS, tsm.0 as usize);
             // Also dealloc the local storage for this thread, nobody needs that anymore
             dealloc(get_tls_ptr().cast(), Layout::new::<ThreadLocalStorage>());
         }
@@ -319,6 +345,8 @@ where
             0,
         )?
     };
+    #[cfg(feature = "verif-hooks")]
+    crate::verif::gate(crate::verif::SPAWN_STACK_MAPPED, tsm.0 as usize);
     // Stack grows downward
     let mut stack = map_ptr + size;
     // shift down a bit, unsure exactly why, doesn't really matter if we do or don't actually
@@ -340,6 +368,8 @@ where
     unsafe {
         (*tls).self_addr = tls as usize;
     }
+    #[cfg(feature = "verif-hooks")]
+    crate::verif::gate(crate::verif::SPAWN_BEFORE_CLONE, tsm.0 as usize);
     #[expect(clippy::cast_possible_truncation)]
     unsafe {
         __clone(
@@ -353,6 +383,8 @@ where
             stack_sz,
         );
     }
+    #[cfg(feature = "verif-hooks")]
+    crate::verif::gate(crate::verif::SPAWN_AFTER_CLONE, tsm.0 as usize);
     Ok(JoinHandle {
         tsm,
         _pd: PhantomData,
@@ -575,11 +607,18 @@ pub fn on_panic(info: &core::panic::PanicInfo) -> ! {
         let stack_info = tls.read();
         // The main thread does not have stack_info set
         if let Some(stack_dealloc) = stack_info.thread_stack_info() {
+            #[cfg(feature = "verif-hooks")]
+            crate::verif::gate(
+                crate::verif::PANIC_BEFORE_FREE_TLS,
+                stack_dealloc.tsm.0 as usize,
+            );
             // Dealloc tls, we're done with it, we're panicking so just clean everything up.
             dealloc(tls.cast(), Layout::new::<ThreadLocalStorage>());
             let map_ptr = stack_dealloc.stack_addr;
             let map_len = stack_dealloc.stack_sz;
             let tsm = stack_dealloc.tsm;
+            #[cfg(feature = "verif-hooks")]
+            crate::verif::gate(crate::verif::PANIC_BEFORE_CAS, tsm.0 as usize);
             let should_dealloc = tsm
                 .get_sync()
                 .compare_exchange(false, true, Ordering::AcqRel, Ordering::Relaxed)
@@ -587,9 +626,15 @@ pub fn on_panic(info: &core::panic::PanicInfo) -> ! {
             if should_dealloc {
                 // The caller has stopped waiting for a response from this thread.
                 // We're responsible from cleaning up the shared memory.
+                #[cfg(feature = "verif-hooks")]
+                crate::verif::gate(crate::verif::PANIC_BEFORE_RESET_TID, tsm.0 as usize);
                 sc::syscall!(SET_TID_ADDRESS, 0);
+                #[cfg(feature = "verif-hooks")]
+                crate::verif::gate(crate::verif::PANIC_BEFORE_FREE_BLOCK, tsm.0 as usize);
                 tsm.dealloc();
             }
+            #[cfg(feature = "verif-hooks")]
+            crate::verif::gate(crate::verif::PANIC_BEFORE_UNMAP_EXIT, tsm.0 as usize);
             // We need to be able to unmap the thread's own stack, we can't use the stack anymore after that
             // so it needs to be done in asm.
             // With the stack_ptr and stack_len in rdi/x0 and rsi/x1, respectively we can call mmap then
